@@ -128,12 +128,7 @@ func runC17(rc *RunCtx) {
 		}
 		return resp, err, injected
 	}
-	failK := func() int {
-		if faulty && tp.Pick(3) == 0 {
-			return 1 + tp.Pick(6)
-		}
-		return 0
-	}
+	var failK func() int
 	pcount := 0
 	newPT := func() []byte {
 		pcount++
@@ -256,9 +251,36 @@ func runC17(rc *RunCtx) {
 	if rc.Thorough() {
 		nOps = 8 + tp.Pick(42)
 	}
-	for i := 0; i < nOps && s.Viol == nil; i++ {
+	// a script forces the next operations: the pattern "a mutation fails on a
+	// storage error, the client retries it, then the key's versions make a
+	// round trip through the archive" needs its steps back to back on one key
+	type forced struct {
+		op    int
+		k     *trKey
+		nd    int // config: min_decryption_version (-1: latest)
+		fault int // k-th storage operation fails (0: none)
+	}
+	var script []forced
+	var fz *forced
+	failK = func() int {
+		if fz != nil {
+			return fz.fault
+		}
+		if faulty && tp.Pick(3) == 0 {
+			return 1 + tp.Pick(6)
+		}
+		return 0
+	}
+	for i := 0; (i < nOps || len(script) > 0) && s.Viol == nil; i++ {
 		op := tp.Pick(16)
-		if len(keys) == 0 || (op == 0 && len(keys) < 3) {
+		fz = nil
+		if len(script) > 0 {
+			f := script[0]
+			script = script[1:]
+			fz = &f
+			op = f.op
+		}
+		if len(keys) == 0 || (op == 0 && len(keys) < 3 && fz == nil) {
 			typ := []string{"aes256-gcm96", "aes128-gcm96", "chacha20-poly1305", "ed25519", "ecdsa-p256", "hmac", "aes256-gcm96"}[tp.Pick(7)]
 			k := &trKey{name: fmt.Sprintf("k%d", len(keys)), typ: typ, latest: 1, minDec: 1, minEnc: 0}
 			data := map[string]any{"type": typ, "allow_plaintext_backup": true, "exportable": true}
@@ -288,7 +310,21 @@ func runC17(rc *RunCtx) {
 			continue
 		}
 		k := keys[tp.Pick(len(keys))]
+		if fz != nil && fz.k != nil {
+			k = fz.k
+		}
 		switch {
+		case op == 99: // end of a script: the live node (with its cache) still serves every ciphertext
+			if !checkAll(h, "after retried mutation and archive round trip", nil, -1, -1) {
+				return
+			}
+			s.Probe("script_completed")
+		case op == 15 && faulty && fz == nil:
+			fk := 1 + tp.Pick(6)
+			mut := []int{7, 9}[tp.Pick(2)]
+			script = []forced{{op: mut, k: k, nd: -1, fault: fk}, {op: mut, k: k, nd: -1}, {op: 1, k: k}, {op: 7, k: k}, {op: 1, k: k},
+				{op: 9, k: k, nd: -1}, {op: 9, k: k, nd: 1}, {op: 99}}
+			note("script on %s: %s failing at storage op %d, retry, rotate, archive round trip", k.name, map[int]string{7: "rotate", 9: "config"}[mut], fk)
 		case op <= 4 && k.canEncrypt: // encrypt
 			pt := newPT()
 			data := map[string]any{"plaintext": b64(pt)}
@@ -461,6 +497,12 @@ func runC17(rc *RunCtx) {
 		case op == 9: // config
 			nd := 1 + tp.Pick(k.latest)
 			ne := tp.Pick(k.latest + 1)
+			if fz != nil && fz.nd != 0 {
+				nd, ne = fz.nd, 0
+				if nd < 0 || nd > k.latest {
+					nd = k.latest
+				}
+			}
 			if ne > 0 && ne < nd {
 				ne = nd
 			}
